@@ -323,5 +323,213 @@ def fromCapsule2Pinned (pi density : K) (a b : V2 K) (radius : K) : MP2 K :=
   let extra := (h * h * lit 1 4 + h * radius * lit 3 / lit 8) * ball.1 * density
   MP2.new com capMass (capI + extra)
 
+/-! ## 3-D `MassProperties` (`parry3d-f64`) -/
+
+/-- 3×3 matrix by rows -/
+structure M3 (K : Type) where
+  r0 : V3 K
+  r1 : V3 K
+  r2 : V3 K
+
+namespace M3
+/-- nalgebra `Matrix3 * Matrix3` (gemm by columns, inner index accumulated left to right) -/
+def mul (a b : M3 K) : M3 K :=
+  let e (r : V3 K) (c0 c1 c2 : K) : K := r.x * c0 + r.y * c1 + r.z * c2
+  let row (r : V3 K) : V3 K := ⟨e r b.r0.x b.r1.x b.r2.x, e r b.r0.y b.r1.y b.r2.y, e r b.r0.z b.r1.z b.r2.z⟩
+  ⟨row a.r0, row a.r1, row a.r2⟩
+def add (a b : M3 K) : M3 K := ⟨a.r0.add b.r0, a.r1.add b.r1, a.r2.add b.r2⟩
+def sub (a b : M3 K) : M3 K := ⟨a.r0.sub b.r0, a.r1.sub b.r1, a.r2.sub b.r2⟩
+def smul (a : M3 K) (s : K) : M3 K := ⟨a.r0.smul s, a.r1.smul s, a.r2.smul s⟩
+def diag (d : V3 K) : M3 K := ⟨⟨d.x, 0, 0⟩, ⟨0, d.y, 0⟩, ⟨0, 0, d.z⟩⟩
+def zero : M3 K := ⟨V3.zero, V3.zero, V3.zero⟩
+/-- `v * v.transpose()` -/
+def outer (v : V3 K) : M3 K := ⟨⟨v.x * v.x, v.x * v.y, v.x * v.z⟩, ⟨v.y * v.x, v.y * v.y, v.y * v.z⟩, ⟨v.z * v.x, v.z * v.y, v.z * v.z⟩⟩
+def toList (a : M3 K) : List K := a.r0.toList ++ a.r1.toList ++ a.r2.toList
+end M3
+
+/-- unit quaternion `(i, j, k, w)` -/
+structure Quat (K : Type) where
+  i : K
+  j : K
+  k : K
+  w : K
+
+namespace Quat
+def identity : Quat K := ⟨0, 0, 0, 1⟩
+/-- `UnitQuaternion::inverse` = conjugate -/
+def inverse (q : Quat K) : Quat K := ⟨-q.i, -q.j, -q.k, q.w⟩
+/-- `UnitQuaternion::to_rotation_matrix` -/
+def toMat (q : Quat K) : M3 K :=
+  let i := q.i; let j := q.j; let k := q.k; let w := q.w
+  let ww := w * w; let ii := i * i; let jj := j * j; let kk := k * k
+  let ij := i * j * two; let wk := w * k * two; let wj := w * j * two
+  let ik := i * k * two; let jk := j * k * two; let wi := w * i * two
+  ⟨⟨ww + ii - jj - kk, ij - wk, wj + ik⟩,
+   ⟨wk + ij, ww - ii + jj - kk, jk - wi⟩,
+   ⟨ik - wj, wi + jk, ww - ii - jj + kk⟩⟩
+/-- `a * b` (Hamilton product, nalgebra's operation order — `Iso3.qmul`) -/
+def mul (a b : Quat K) : Quat K :=
+  let r := Iso3.qmul a.i a.j a.k a.w b.i b.j b.k b.w
+  ⟨r.1, r.2.1, r.2.2.1, r.2.2.2⟩
+end Quat
+
+/-- 3-D `MassProperties { local_com, inv_mass, inv_principal_inertia_sqrt, principal_inertia_local_frame }` -/
+structure MP3 (K : Type) where
+  com : V3 K
+  invMass : K
+  invI : V3 K
+  frame : Quat K
+
+namespace MP3
+/-- `with_principal_inertia_frame` -/
+def withFrame (com : V3 K) (mass : K) (pi : V3 K) (frame : Quat K) : MP3 K :=
+  ⟨com, inv mass, ⟨inv (Num.sqrt pi.x), inv (Num.sqrt pi.y), inv (Num.sqrt pi.z)⟩, frame⟩
+/-- `MassProperties::new` (dim3) -/
+def new (com : V3 K) (mass : K) (pi : V3 K) : MP3 K := withFrame com mass pi Quat.identity
+def mass (p : MP3 K) : K := inv p.invMass
+/-- `principal_inertia` (dim3) -/
+def principalInertia (p : MP3 K) : V3 K :=
+  ⟨inv (p.invI.x * p.invI.x), inv (p.invI.y * p.invI.y), inv (p.invI.z * p.invI.z)⟩
+/-- `reconstruct_inertia_matrix`: `R · diag(I) · R⁻¹` -/
+def reconstruct (p : MP3 K) : M3 K :=
+  ((p.frame.toMat).mul (M3.diag p.principalInertia)).mul p.frame.inverse.toMat
+/-- `construct_shifted_inertia_matrix` (dim3) -/
+def shifted (p : MP3 K) (shift : V3 K) : M3 K :=
+  let matrix := p.reconstruct
+  if !(neq p.invMass 0) then
+    let mass := 1 / p.invMass
+    let diag := shift.normSq
+    let diagm : M3 K := M3.diag ⟨diag, diag, diag⟩
+    matrix.add ((diagm.sub (M3.outer shift)).smul mass)
+  else matrix
+/-- `transform_by` (dim3) -/
+def transformBy (p : MP3 K) (m : Iso3 K) : MP3 K :=
+  ⟨m.act p.com, p.invMass, p.invI, Quat.mul ⟨m.qi, m.qj, m.qk, m.qw⟩ p.frame⟩
+def zero : MP3 K := ⟨V3.zero, 0, V3.zero, Quat.identity⟩
+/-- `is_zero`: field-wise `==`; `UnitQuaternion == ` accepts `q` and `-q` -/
+def isZero (p : MP3 K) : Bool :=
+  neq p.com.x 0 && neq p.com.y 0 && neq p.com.z 0 && neq p.invMass 0 &&
+  neq p.invI.x 0 && neq p.invI.y 0 && neq p.invI.z 0 &&
+  ((neq p.frame.i 0 && neq p.frame.j 0 && neq p.frame.k 0 && neq p.frame.w 1) ||
+   (neq p.frame.i (-0) && neq p.frame.j (-0) && neq p.frame.k (-0) && neq p.frame.w (-1)))
+
+/-- what `Add`/`Sub`/`Sum` hand to `with_inertia_matrix`: `(mass, com, inertia matrix)`; the eigen-decomposition
+(`symmetric_eigen`) that follows is not modelled — the correspondence compares `reconstruct_inertia_matrix` of the
+result with this matrix under a relative tolerance. `none` = the early `return self/other`. -/
+def addRaw (a b : MP3 K) : Option (K × V3 K × M3 K) :=
+  if a.isZero then none
+  else if b.isZero then none
+  else
+    let m1 := inv a.invMass
+    let m2 := inv b.invMass
+    let invMass := inv (m1 + m2)
+    let com := ((a.com.smul m1).add (b.com.smul m2)).smul invMass
+    let i1 := a.shifted (com.sub a.com)
+    let i2 := b.shifted (com.sub b.com)
+    some (m1 + m2, com, i1.add i2)
+
+/-- observable triple `(mass(), local_com, reconstruct_inertia_matrix())` -/
+def observe (p : MP3 K) : K × V3 K × M3 K := (p.mass, p.com, p.reconstruct)
+
+/-- `a + b` as the observable triple -/
+def addObs (a b : MP3 K) : K × V3 K × M3 K :=
+  match addRaw a b with
+  | some (m, c, i) => (inv (inv m), c, i)
+  | none => if a.isZero then b.observe else a.observe
+
+def subObs (a b : MP3 K) : K × V3 K × M3 K :=
+  if a.isZero || b.isZero then a.observe
+  else
+    let m1 := inv a.invMass
+    let m2 := inv b.invMass
+    let newMass0 := m1 - m2
+    let newMass := if newMass0 < eps32 then 0 else newMass0
+    let invMass := inv newMass
+    let com := ((a.com.smul m1).sub (b.com.smul m2)).smul invMass
+    let i1 := a.shifted (com.sub a.com)
+    let i2 := b.shifted (com.sub b.com)
+    (inv (inv newMass), com, i1.sub i2)
+
+def sumAcc (acc : K × V3 K) (p : MP3 K) : K × V3 K :=
+  let mass := inv p.invMass
+  (acc.1 + mass, acc.2.add (p.com.smul mass))
+
+def sumObs (ps : List (MP3 K)) : K × V3 K × M3 K :=
+  let acc := ps.foldl sumAcc (0, V3.zero)
+  let totalMass := acc.1
+  let totalCom := if 0 < totalMass then acc.2.sdiv totalMass else acc.2
+  let totalInertia := ps.foldl (fun ti p => ti.add (p.shifted (totalCom.sub p.com))) M3.zero
+  (inv (inv totalMass), totalCom, totalInertia)
+end MP3
+
+/-! ## 3-D closed forms -/
+
+/-- `ball_volume_unit_angular_inertia` (dim3) -/
+def ballVolInertia3 (pi radius : K) : K × V3 K :=
+  let volume := pi * radius * radius * radius * lit 4 / lit 3
+  let i := radius * radius * two / lit 5
+  (volume, ⟨i, i, i⟩)
+
+def fromBall3 (pi density radius : K) : MP3 K :=
+  let vi := ballVolInertia3 pi radius
+  let mass := vi.1 * density
+  MP3.new V3.zero mass (vi.2.smul mass)
+
+/-- `cuboid_volume_unit_inertia` (dim3) -/
+def cuboidVolInertia3 (he : V3 K) : K × V3 K :=
+  let volume := he.x * he.y * he.z * lit 8
+  let ix := (he.x * he.x) / lit 3
+  let iy := (he.y * he.y) / lit 3
+  let iz := (he.z * he.z) / lit 3
+  (volume, ⟨iy + iz, ix + iz, ix + iy⟩)
+
+def fromCuboid3 (density : K) (he : V3 K) : MP3 K :=
+  let vi := cuboidVolInertia3 he
+  let mass := vi.1 * density
+  MP3.new V3.zero mass (vi.2.smul mass)
+
+/-- `cylinder_y_volume_unit_inertia` (dim3) -/
+def cylinderVolInertia (pi halfHeight radius : K) : K × V3 K :=
+  let volume := halfHeight * radius * radius * pi * two
+  let sqRadius := radius * radius
+  let sqHeight := halfHeight * halfHeight * lit 4
+  let off := (sqRadius * lit 3 + sqHeight) / lit 12
+  (volume, ⟨off, sqRadius / two, off⟩)
+
+def fromCylinder (pi density halfHeight radius : K) : MP3 K :=
+  let vi := cylinderVolInertia pi halfHeight radius
+  let mass := vi.1 * density
+  MP3.withFrame V3.zero mass (vi.2.smul mass) Quat.identity
+
+/-- `cone_y_volume_unit_inertia` -/
+def coneVolInertia (pi halfHeight radius : K) : K × V3 K :=
+  let volume := radius * radius * pi * halfHeight * two / lit 3
+  let sqRadius := radius * radius
+  let sqHeight := halfHeight * halfHeight * lit 4
+  let off := sqRadius * lit 3 / lit 20 + sqHeight * lit 3 / lit 80
+  let principal := sqRadius * lit 3 / lit 10
+  (volume, ⟨off, principal, off⟩)
+
+def fromCone (pi density halfHeight radius : K) : MP3 K :=
+  let vi := coneVolInertia pi halfHeight radius
+  let mass := vi.1 * density
+  MP3.withFrame ⟨0, -halfHeight / two, 0⟩ mass (vi.2.smul mass) Quat.identity
+
+/-- `from_capsule` (dim3) without the principal frame (`Capsule::rotation_wrt_y`, built from `acos/sin/cos`, is judged
+by the oracle only): `(local_com, inv_mass, inv_principal_inertia_sqrt)` -/
+def fromCapsule3 (pi density : K) (a b : V3 K) (radius : K) : V3 K × K × V3 K :=
+  let halfHeight := (b.sub a).norm / two
+  let cyl := cylinderVolInertia pi halfHeight radius
+  let ball := ballVolInertia3 pi radius
+  let capVol := cyl.1 + ball.1
+  let capMass := capVol * density
+  let capI := ((cyl.2.smul cyl.1).add (ball.2.smul ball.1)).smul density
+  let com := V3.center a b
+  let h := halfHeight * two
+  let extra := (h * h * lit 1 4 + h * radius * lit 3 / lit 8) * ball.1 * density
+  let capI' : V3 K := ⟨capI.x + extra, capI.y, capI.z + extra⟩
+  let p := MP3.withFrame com capMass capI' Quat.identity
+  (p.com, p.invMass, p.invI)
+
 end Mass
 end Model
